@@ -49,6 +49,16 @@ def r1(ctx):
                 after = g.reachable(cn, follow_exc=False)
                 late = [n for cc in method_calls(f, ("write", "write_file", "close")) if tail(cc.func.value) == rv for n in nodes_with(f, cc) if n in after and n not in cn]
                 ctx.check("C19.R1", not late, key(f, "nothing-after-record"), site(f, c), "response bytes can be written after the access record was emitted", "record is last")
+            if tr is not None:
+                before = []
+                for st in tr.finalbody:
+                    if any(c is x for x in ast.walk(st)):
+                        break
+                    before.append(st)
+                risky = [st for st in before if not (isinstance(st, ast.Assign) and all(isinstance(t, ast.Name) for t in st.targets))]
+                ctx.check("C19.R1", not risky, key(f, "record-first-in-finally"), site(f, risky[0] if risky else c),
+                          "`%s` runs in the finally before the access record is written: if it raises (e.g. the iterable's close()), a response that was fully delivered leaves no record" % (
+                              norm(risky[0]) if risky else ""), "the record is the first effect of the finally")
             a = [norm(x) for x in c.args]
             ctx.check("C19.R1", a[:3] == [rv, f.params[1] if "req" in f.params[1] else a[1], ev], key(f, "access-args"), site(f, c), "log.access is not called with (resp, req, environ, time)", "access(resp, req, environ, ..)")
             # not inside a loop (one record)
